@@ -207,8 +207,9 @@ theorem mergeF_plain : ∀ (n m : Nat) (a b : Node), plainT a = true → plainO 
           · -- list: deleting
             subst hkb
             rw [compMerge_listOther (mergeF n) ha hbT]
-            simp only [native, CompKind.isDictFam, Bool.false_eq_true, if_false, updF_list_right, MRel,
-              and_true]
+            simp only [nativeOf_propagate, native, CompKind.isDictFam, Bool.false_eq_true, if_false,
+              updF_list_right, MRel, and_true]
+            apply plainT_propagate
             have := (replaceOtherFlags_plain hfb hfa).1
             simp only [plainT, this, Bool.true_and]
             simpa [plainT, hfb] using hbT
